@@ -349,6 +349,26 @@ def main():
                               dict(area='runtime', context=kind, type=tc, where=where))
         if len(samples) < 3: samples.append({'expression': meta[0][1], 'context': meta[0][0], 'expected': expect[0][1]})
 
+    # (d) enumerated types are integer types (6.7.2.2p4; chibicc chooses a 4-byte SIGNED type): conversions from and to an enum-typed
+    # expression; postfix ++ / -- on bit-fields and through pointers yield the old value
+    fx = PRINTF + '''enum E { A, B = 1 }; volatile enum E e = (enum E)-1, e1 = A, e2 = B; volatile long big = 0x100000001L;
+struct S { int a : 3; unsigned b : 2; _Bool c : 1; } s = { 3, 3, 1 }; long arr[3] = { 10, 20, 30 }; long *p = arr; unsigned char uc = 255; _Bool bo = 1;
+int main(void) {
+  double d = e; float f = e; long c = (long)(enum E)big; long r = (e1 - e2) + 1L; unsigned long u = (unsigned long)e; long w = (long)(e + 0u); long sh = e >> 1;
+  printf("%g %g %ld %ld %lu %ld %ld %d %d\\n", d, (double)f, c, r, u, w, sh, (int)(e < 0), (int)sizeof(e));
+  int r1 = s.a++, a1 = s.a, r2 = s.b++, b2 = s.b, r3 = s.a--, a3 = s.a, r4 = s.c++, c4 = s.c, r5 = s.c--, c5 = s.c;
+  long r6 = *p++, r7 = *p--, r8 = (*p)++, r9 = arr[0]; int r10 = uc++, r11 = uc, r12 = bo++, r13 = bo, r14 = bo--, r15 = bo--, r16 = bo;
+  printf("%d %d %d %d %d %d %d %d %d %d | %ld %ld %ld %ld | %d %d %d %d %d %d %d\\n", r1, a1, r2, b2, r3, a3, r4, c4, r5, c5, r6, r7, r8, r9, r10, r11, r12, r13, r14, r15, r16);
+  return 0; }
+'''
+    ffx = os.path.join(wd, 'enum_postfix.c'); open(ffx, 'w').write(fx)
+    st, got = compile_run(CHIBI, ffx, ffx + '.exe'); evals += 1
+    expfx = '-1 -1 1 0 18446744073709551615 4294967295 -1 1 4\n3 -4 3 0 -4 3 1 1 1 0 | 10 20 10 11 | 255 0 1 1 1 0 1\n'
+    if st != 'ok' or got != expfx:
+        run.violation(dict(kind='runtime-value', context='enum-conversions-and-postfix', got=got if st == 'ok' else st, expected=expfx, replay_program=fx,
+                           meaning='line 1: conversions of an enum object holding -1 (enum types are 4-byte signed in chibicc) to double, float, long, unsigned long, through unsigned int, >> 1, < 0, sizeof; line 2: values of postfix ++/-- on bit-fields (int:3, unsigned:2, _Bool:1), through pointers, on unsigned char and _Bool, and the objects afterwards'),
+                      dict(area='runtime', context='enum-postfix-program', type='mixed', where='fixed-program'))
+
     cov = dict(evaluations=evals, distinct_nontrivial=len(nontriv) + ntext,
                rule='(c) boundary grid: every binary operator x 81 operand type pairs x 4-11 boundary values per operand (0, 1, extremes, multiples of 2^32), every unary operator x 9 types, value and truth value at run time against the Coq spec; (a) every one-operator function: 16 binary operators x 81 operand type pairs, 4 unary x 9, 81 casts: -S instruction text = proved model; (b) random expression trees (depth 1-%d) over 9 types on volatile operands, each in initializer / argument / return / assignment / if / while / ! / ?: / && contexts, every compound assignment operator x 81 type pairs, ++/-- pre/post x 9 types x boundary values, against the Coq spec (undefined cases filtered by the spec); non-trivial = depth >= 2 or a one-operator text comparison' % (3 if run.quick() else 5),
                samples=samples, input_distribution=dist, traces_validated_against_impl=ntext, text_mismatches=len(mism))
